@@ -86,6 +86,17 @@ def raw_cases():
           pre="void f(P* q) { q->x = 9; }\n"),
         c("const-ptr-param-via-function-pointer", "    int d = 3;\n    void* g = &f;\n    g(&d);\n    println(d);", "error", "",
           finding="const_qualifier_lost_via_function_pointer", pre="void f(const int* q) { *q = 9; }\n"),
+    ] + [
+        # pointer-to-const PARAMETER x how the argument is written x how the callee stores through it
+        c("const-ptr-param-%s-%s" % (an, sn), "    int d = 3;\n    int[3] arr = [1, 2, 3];\n    P s = {1, 2};\n" + decl + "    %s(%s);\n    println(d, arr[0], s.x);" % (fn, arg),
+          "error", "", pre="void fi(const int* p) { %s }\nvoid fs(const P* p) { %s }\n" % (body if fn == "fi" else "*p = 0;", body if fn == "fs" else "p->x = 0;"))
+        for (an, decl, argi, args) in [("addr", "", "&d", "&s"), ("ptrvar", "    int* q = &d;\n    P* sp = &s;\n", "q", "sp"),
+                                        ("constptrvar", "    const int* q = &d;\n    const P* sp = &s;\n", "q", "sp"),
+                                        ("elemaddr", "", "&arr[0]", "&s")]
+        for (sn, fn, body) in [("deref", "fi", "*p = 9;"), ("index", "fi", "p[0] = 9;"), ("incr", "fi", "(*p)++;"),
+                               ("arrow", "fs", "p->x = 9;"), ("starmember", "fs", "(*p).x = 9;")]
+        for arg in [argi if fn == "fi" else args]
+    ] + [
         c("const-float", "    const float x = 1.5;\n    x = 2.5;\n    println(x);", "error", ""),
         c("const-string", "    const string s = \"a\";\n    s = \"b\";\n    println(s);", "error", ""),
         c("const-struct-whole-assign", "    const P a = {1, 2};\n    P b = {3, 4};\n    a = b;\n    println(a.x);", "error", ""),
